@@ -53,3 +53,4 @@ fn to_stream_yields_history_then_ends() {
     _ => panic!("the stream must end once the source has terminated"),
   }
 }
+
